@@ -15,6 +15,7 @@
 (*   same_angle  result differs from the start angle by more than 1e-8"    *)
 (*   same_sign   sign differs (angles within 1e-8" of zero excepted)       *)
 (*   valid_hp    an HP value produced has minutes or seconds field >= 60   *)
+(*   source_unchanged  a conversion changed the angle object it was given  *)
 (*   rejects     invalid HP accepted / valid HP rejected by hp2dec, HPAngle*)
 (***************************************************************************)
 EXTENDS Angles, Json, IOUtils, TLC
@@ -55,7 +56,8 @@ Step == /\ ~dead /\ l <= Len(T.ev) /\ T.ev[l].a # "Reject"
                              ELSE FirstFail(<< <<"kind", ev.kind = Kind(e[2])>>,
                                                <<"same_angle", SameAngle(ObsAng(ev), ang)>>,
                                                <<"same_sign", SameSign(ObsAng(ev), ang)>>,
-                                               <<"valid_hp", ProducesHP(e) => ValidHPDigits(ev.hp)>> >>, 1)} :
+                                               <<"valid_hp", ProducesHP(e) => ValidHPDigits(ev.hp)>>,
+                                               <<"source_unchanged", ev.srcsame>> >>, 1)} :     \* Convert yields a NEW value
                       /\ (IF T.fan THEN UNCHANGED vars ELSE Convert(e))   \* fan: every probe starts from the start value
                       /\ (IF f = "" THEN TRUE ELSE Report(ev.a \o "." \o f))
                       /\ dead' = (f # "")
